@@ -296,7 +296,7 @@ type mergeAbort struct{}
 // tryMerge executes the region opened by the If at the end of b under guards.
 // On success the join block's phis are set and the join is returned.
 func (ex *Exec) tryMerge(fr *Frame, b *ssa.BasicBlock, cond *Term) (join *ssa.BasicBlock) {
-	if ex.noMerge {
+	if ex.noMerge || (ex.monitor != nil && ex.monitorOn) {
 		return nil
 	}
 	r := ex.regionOf(b)
